@@ -212,6 +212,12 @@ def closeR (env : Env) (sepr : Bool) (sp : Spec) (d0 : DS) (s : Fields) (kids : 
     ds := { tick := d.tick + 1, nu := d.nu, ex := (extOut env res d.ex).2 },
     wf := match res with | .ok => presentOpt (sp.sers.map (·.2)) sx | _ => true }
 
+/-- the result of `with x: body` on the open action `x` (cf. `closeR`): the body's result `rb` is
+appended, the node is closed with the body's outcome, which is also the outcome of the statement -/
+def closeW (env : Env) (sepr : Bool) (sp : Spec) (d0 : DS) (s : Fields) (kids : F) (rb : R) : R :=
+  { closeR env sepr sp d0 s (kids.append rb.f) rb.s rb.out rb.ds with
+    out := rb.out, wf := rb.wf && (closeR env sepr sp d0 s (kids.append rb.f) rb.s rb.out rb.ds).wf }
+
 /-- what `x.finish(exc)` is told -/
 def finRes : Option Nat → Outcome
   | none => .ok
@@ -263,7 +269,8 @@ def denB (env : Env) (cur : Option Exc) (inAct : Bool) : Block → DS → Fields
 `sepr`; `s` = the success fields of the enclosing action), while `x` is open: it has performed `kids`
 and collected success fields `sx`, the counters are `d`.  Allowed: `with x.context(): body` /
 `x.run(lambda: body)` whose body ends normally (a body that raises would leave the action unfinished:
-excluded, `wf = false`), then `x.finish(exc)`, which closes the node, and the block goes on. -/
+excluded, `wf = false`), `x.log(..)`, `x.add_success_fields(..)`, then `x.finish(exc)` or `with x: body`,
+which closes the node, and the block goes on (unless the body of `with x:` raised). -/
 def denX (env : Env) (cur : Option Exc) (inAct : Bool) (x : Nat) (sepr : Bool) (sp : Spec) (d0 : DS) (s : Fields) :
     Block → F → Fields → DS → R
   | .nil, _, _, _ => { f := .nil, out := .stuck, s := s, ds := d0, wf := false }
@@ -293,6 +300,30 @@ def denX (env : Env) (cur : Option Exc) (inAct : Bool) (x : Nat) (sepr : Bool) (
         let r2 := denB env cur inAct rest r.ds r.s
         { f := r.f.append r2.f, out := r2.out, s := r2.s, ds := r2.ds, wf := r.wf && r2.wf }
       else { f := .nil, out := .stuck, s := s, ds := d0, wf := false }
+    | .logTo y ms =>
+      -- `x.log(..)` / `Message.log(action=x)` between the segments: the next item of `x`
+      if y = x then
+        let r := denX env cur inAct x sepr sp d0 s rest (kids.append (.own (.leaf d.tick ms) .nil)) sx
+          { tick := d.tick + 1, nu := d.nu, ex := d.ex }
+        { r with wf := presentOpt ms.sers ms.fields && r.wf }
+      else { f := .nil, out := .stuck, s := s, ds := d0, wf := false }
+    | .addSuccess z fs =>
+      match z with
+      | some y =>
+        -- `x.add_success_fields(..)`
+        if y = x then denX env cur inAct x sepr sp d0 s rest kids (sx.update fs) d
+        else { f := .nil, out := .stuck, s := s, ds := d0, wf := false }
+      | none => { f := .nil, out := .stuck, s := s, ds := d0, wf := false }
+    | .withHandle y body =>
+      -- `with x: body`: the `with` block's behaviour on the existing handle; closes the node with the body's outcome
+      if y = x then
+        let r := closeW env sepr sp d0 s kids (denB env cur true body d sx)
+        match r.out with
+        | .ok =>
+          let r2 := denB env cur inAct rest r.ds r.s
+          { f := r.f.append r2.f, out := r2.out, s := r2.s, ds := r2.ds, wf := r.wf && r2.wf }
+        | _ => r
+      else { f := .nil, out := .stuck, s := s, ds := d0, wf := false }
     | _ => { f := .nil, out := .stuck, s := s, ds := d0, wf := false }
 end
 
@@ -319,7 +350,8 @@ def Block.structured (inH inAct : Bool) : Block → Bool
     | .startAs x _ _ => r.structuredX inH inAct x
     | s => s.structured inH inAct && r.structured inH inAct
 /-- the rest of a block after `x = start_action(..)`: context segments for `x` whose bodies are
-structured and do not rebind `x`, then `x.finish(..)`, then a structured rest -/
+structured and do not rebind `x`, `x.log(..)`, `x.add_success_fields(..)`, then `x.finish(..)` or
+`with x: <structured body>`, then a structured rest -/
 def Block.structuredX (inH inAct : Bool) (x : Nat) : Block → Bool
   | .nil => false
   | .cons s r =>
@@ -327,6 +359,9 @@ def Block.structuredX (inH inAct : Bool) (x : Nat) : Block → Bool
     | .inContext y body => y == x && body.structured inH true && !body.binds x && r.structuredX inH inAct x
     | .runIn y body => y == x && body.structured inH true && !body.binds x && r.structuredX inH inAct x
     | .finish y _ => y == x && r.structured inH inAct
+    | .logTo y _ => y == x && r.structuredX inH inAct x
+    | .addSuccess (some y) _ => y == x && r.structuredX inH inAct x
+    | .withHandle y body => y == x && body.structured inH true && r.structured inH inAct
     | _ => false
 end
 end Sys
@@ -542,6 +577,17 @@ theorem eff_log_in (w : World) (hw : WOK w ds) (c : Nat) (a : Act) (hc : w.ctx =
     Option.map_some, Option.getD_some]
   refine Eff.thenWrite H (A := w.acts.set c { a with last := a.last + 1 }) (dt := 1) (du := 0) ?_ hw _ _ hp'
   exact ⟨rfl, hc.symm, rfl, rfl, rfl, rfl, by simp, rfl, rfl⟩
+
+/-- `x.log(..)` / `Message.log(action=x)` on the handle of an action, whatever the current action is -/
+theorem eff_logTo (w : World) (hw : WOK w ds) (h : Nat) (a : Act) (ha : w.acts[h]? = some a)
+    (ms : MSpec) (hp : presentOpt ms.sers ms.fields = true) :
+    Eff w (w.logTo env h ms) (w.acts.set h { a with last := a.last + 1 }) 1 0
+      [leafDict σ a.uuid (a.level ++ [a.last + 1]) w.tick ms] := by
+  have hp' := presentOpt_set _ _ "message_type" (.str ms.mtype) (presentOpt_set _ _ "task_level" (.lvl (a.level ++ [a.last + 1]))
+    (presentOpt_set _ _ "task_uuid" (.uuid a.uuid) (presentOpt_set _ _ "timestamp" (.ts w.tick) hp)))
+  simp only [World.logTo, World.buildLog, World.clock, World.nextLevel, ha, Option.map_some, Option.getD_some]
+  refine Eff.thenWrite H (A := w.acts.set h { a with last := a.last + 1 }) (dt := 1) (du := 0) ?_ hw _ _ hp'
+  exact ⟨rfl, rfl, rfl, rfl, rfl, rfl, by simp, rfl, rfl⟩
 
 /-- a message logged outside any action: a fresh one-message task -/
 theorem eff_log_out (w : World) (hw : WOK w ds) (hc : w.ctx = none) (ms : MSpec)
@@ -907,6 +953,42 @@ theorem denX_finish (env : Env) (cur : Option Exc) (inAct : Bool) (x : Nat) (sep
           (denB env cur inAct rest (closeR env sepr sp d0 s kids sx (finRes exc) d).ds (closeR env sepr sp d0 s kids sx (finRes exc) d).s).wf } := by
   simp only [denX, if_true]
 
+theorem denX_logTo (env : Env) (cur : Option Exc) (inAct : Bool) (x : Nat) (sepr : Bool) (sp : Spec) (d0 : DS) (s : Fields)
+    (ms : MSpec) (rest : Block) (kids : F) (sx : Fields) (d : DS) :
+    denX env cur inAct x sepr sp d0 s (.cons (.logTo x ms) rest) kids sx d =
+      { denX env cur inAct x sepr sp d0 s rest (kids.append (.own (.leaf d.tick ms) .nil)) sx
+          { tick := d.tick + 1, nu := d.nu, ex := d.ex } with
+        wf := presentOpt ms.sers ms.fields &&
+          (denX env cur inAct x sepr sp d0 s rest (kids.append (.own (.leaf d.tick ms) .nil)) sx
+            { tick := d.tick + 1, nu := d.nu, ex := d.ex }).wf } := by
+  simp only [denX, if_true]
+
+theorem denX_addSucc (env : Env) (cur : Option Exc) (inAct : Bool) (x : Nat) (sepr : Bool) (sp : Spec) (d0 : DS) (s : Fields)
+    (fs : Fields) (rest : Block) (kids : F) (sx : Fields) (d : DS) :
+    denX env cur inAct x sepr sp d0 s (.cons (.addSuccess (some x) fs) rest) kids sx d =
+      denX env cur inAct x sepr sp d0 s rest kids (sx.update fs) d := by
+  simp only [denX, if_true]
+
+theorem denX_with (env : Env) (cur : Option Exc) (inAct : Bool) (x : Nat) (sepr : Bool) (sp : Spec) (d0 : DS) (s : Fields)
+    (body rest : Block) (kids : F) (sx : Fields) (d : DS) :
+    denX env cur inAct x sepr sp d0 s (.cons (.withHandle x body) rest) kids sx d =
+      match (closeW env sepr sp d0 s kids (denB env cur true body d sx)).out with
+      | .ok =>
+        { f := (closeW env sepr sp d0 s kids (denB env cur true body d sx)).f.append
+            (denB env cur inAct rest (closeW env sepr sp d0 s kids (denB env cur true body d sx)).ds
+              (closeW env sepr sp d0 s kids (denB env cur true body d sx)).s).f,
+          out := (denB env cur inAct rest (closeW env sepr sp d0 s kids (denB env cur true body d sx)).ds
+              (closeW env sepr sp d0 s kids (denB env cur true body d sx)).s).out,
+          s := (denB env cur inAct rest (closeW env sepr sp d0 s kids (denB env cur true body d sx)).ds
+              (closeW env sepr sp d0 s kids (denB env cur true body d sx)).s).s,
+          ds := (denB env cur inAct rest (closeW env sepr sp d0 s kids (denB env cur true body d sx)).ds
+              (closeW env sepr sp d0 s kids (denB env cur true body d sx)).s).ds,
+          wf := (closeW env sepr sp d0 s kids (denB env cur true body d sx)).wf &&
+            (denB env cur inAct rest (closeW env sepr sp d0 s kids (denB env cur true body d sx)).ds
+              (closeW env sepr sp d0 s kids (denB env cur true body d sx)).s).wf }
+      | _ => closeW env sepr sp d0 s kids (denB env cur true body d sx) := by
+  simp only [denX, if_true]
+
 theorem Block.structured_cons (inH inAct : Bool) (st : Stmt) (rest : Block) (hns : ∀ x task sp, st ≠ .startAs x task sp) :
     (Block.cons st rest).structured inH inAct = (st.structured inH inAct && rest.structured inH inAct) := by
   cases st <;> first | exact absurd rfl (hns _ _ _) | simp only [Block.structured]
@@ -1108,6 +1190,81 @@ theorem preX_segment {env : Env} {σ : Nat → FV → FV} {ds : List Nat} {run :
     show Wb.acts[g]? = _
     rw [post.frame g (by have := px.new; have := lt_of_get px.inner; show g < w.acts.length; omega) (by have := px.new; omega)]
     exact px.frame g hg hgc
+
+/-- `x.log(..)` while `x` is open: its next item -/
+theorem preX_logTo {env : Env} {σ : Nat → FV → FV} {ds : List Nat} (H : EnvOK env σ ds) {w0 w : World} {c : Nat} {i : AI}
+    {n : Nat} {s : Fields} {x h : Nat} {sepr : Bool} {sp : Spec} {d0 : DS} {kids : F} {sx : Fields} {d : DS}
+    (px : PreX env σ ds w0 w c i n s x h sepr sp d0 kids sx d) (ms : MSpec) (hp : presentOpt ms.sers ms.fields = true) :
+    PreX env σ ds w0 (w.logTo env h ms) c i n s x h sepr sp d0 (kids.append (.own (.leaf d.tick ms) .nil)) sx
+      { tick := d.tick + 1, nu := d.nu, ex := d.ex } := by
+  have hlt := lt_of_get px.inner
+  have hne : h ≠ c := by have := px.new; have := px.old; omega
+  have e := eff_logTo H w px.wok h _ px.inner ms hp
+  refine ⟨px.wok.ofEff e, ?_, ?_, ?_, px.new, px.old, ?_, e.ctx.trans px.ctx, px.ctx0, ?_, ?_, ?_, ?_⟩
+  · have e1 : 1 + kids.len + 1 = 2 + kids.len := by omega
+    rw [e.stage, px.stage, F.dicts_append]
+    simp [F.dicts, T.dicts, AI.act, e1, px.tick]
+  · rw [e.acts, List.getElem?_set_ne hne]; exact px.outer
+  · rw [e.acts, List.getElem?_set_self hlt, F.len_append]
+    simp [AI.act, F.len, Nat.add_assoc]
+  · intro g hg hgc
+    rw [e.acts, List.getElem?_set_ne (by have := px.new; omega)]
+    exact px.frame g hg hgc
+  · rw [e.vars]; exact px.var
+  · rw [e.tick, px.tick]
+  · rw [e.nu, px.nu]; rfl
+  · rw [e.ext, px.ex]
+
+/-- `x.add_success_fields(..)` while `x` is open -/
+theorem preX_addSucc {env : Env} {σ : Nat → FV → FV} {ds : List Nat} {w0 w : World} {c : Nat} {i : AI}
+    {n : Nat} {s : Fields} {x h : Nat} {sepr : Bool} {sp : Spec} {d0 : DS} {kids : F} {sx : Fields} {d : DS}
+    (px : PreX env σ ds w0 w c i n s x h sepr sp d0 kids sx d) (fs : Fields) :
+    PreX env σ ds w0 { w with acts := w.acts.set h { (i.sub n sepr sp d0).act (1 + kids.len) sx with
+        succ := ((i.sub n sepr sp d0).act (1 + kids.len) sx).succ.update fs } } c i n s x h sepr sp d0 kids (sx.update fs) d := by
+  have hlt := lt_of_get px.inner
+  have hne : h ≠ c := by have := px.new; have := px.old; omega
+  refine ⟨⟨px.wok.dests, px.wok.globals⟩, px.stage, ?_, ?_, px.new, px.old, ?_, px.ctx, px.ctx0, px.var, px.tick, px.nu, px.ex⟩
+  · show (w.acts.set h _)[c]? = _
+    rw [List.getElem?_set_ne hne]; exact px.outer
+  · show (w.acts.set h _)[h]? = _
+    rw [List.getElem?_set_self hlt]; rfl
+  · intro g hg hgc
+    show (w.acts.set h _)[g]? = _
+    rw [List.getElem?_set_ne (by have := px.new; omega)]
+    exact px.frame g hg hgc
+
+/-- `with x: body` while `x` is open: the body's items follow, the node is closed with the body's outcome -/
+theorem postX_with {env : Env} {σ : Nat → FV → FV} {ds : List Nat} (H : EnvOK env σ ds) {run : World → World × Outcome}
+    {den : DS → Fields → R} (hb : Emits env σ ds run den) {w0 w : World} {c : Nat} {i : AI}
+    {n : Nat} {s : Fields} {x h : Nat} {sepr : Bool} {sp : Spec} {d0 : DS} {kids : F} {sx : Fields} {d : DS}
+    (px : PreX env σ ds w0 w c i n s x h sepr sp d0 kids sx d)
+    (hwf : (closeW env sepr sp d0 s kids (den d sx)).wf = true) :
+    Post env σ ds w0 (withBlock env w h run).1 c i n (closeW env sepr sp d0 s kids (den d sx)) ∧
+      (withBlock env w h run).2 = (den d sx).out ∧ (den d sx).out ≠ .stuck := by
+  have hlt := lt_of_get px.inner
+  have hclt := lt_of_get px.outer
+  have hne : h ≠ c := by have := px.new; have := px.old; omega
+  simp only [closeW, Bool.and_eq_true] at hwf
+  obtain ⟨r1, r2, r3, r4, r5, r6, r7, r8, r9, r10⟩ := run_handle H hb w h (i.sub n sepr sp d0) (1 + kids.len) sx d px.wok px.inner
+    px.tick px.nu px.ex hwf.1 (fun ho => by
+      have := hwf.2
+      simp only [closeR, ho] at this
+      simpa [AI.sub_sers] using this)
+  refine ⟨⟨?_, ?_, ?_, ?_, r4.trans (px.ctx.trans px.ctx0.symm), ?_, r6, ?_, r8⟩, r9, r10⟩
+  · rw [r1, px.stage]
+    simp only [closeW, closeR]
+    rw [dicts_sub env σ i n sepr sp d0 _ rfl]
+    have e1 : 1 + kids.len + 1 = 2 + kids.len := by omega
+    have e2 : 1 + kids.len + (den d sx).f.len + 1 = kids.len + (den d sx).f.len + 2 := by omega
+    simp only [T.dicts, F.dicts_append, F.len_append, AI.sub_atype, AI.sub_sers, e1, e2, List.append_assoc, List.cons_append]
+  · rw [r2 c hclt (Ne.symm hne), px.outer]
+    cases sepr <;> simp [closeW, closeR, F.len]
+  · intro g hg hgc
+    rw [r2 g (by have := px.new; omega) (by have := px.new; omega)]
+    exact px.frame g hg hgc
+  · have := px.new; omega
+  · rw [r5]; rfl
+  · rw [r7]; rfl
 
 /-- after `x = start_action(sp)` / `start_task(sp)` inside action `c` -/
 theorem preX_start {env : Env} {σ : Nat → FV → FV} {ds : List Nat} (H : EnvOK env σ ds) (cur : Option Exc) {w : World} {c : Nat}
@@ -1391,16 +1548,63 @@ theorem execX_emits {env : Env} {σ : Nat → FV → FV} {ds : List Nat} (H : En
       have p1 := postX_finish H px exc hwf.1
       simp only [execB, execS, px.var]
       exact emits_seq px.ctx0 p1 (execB_emits H cur inH hcur rest hsr) _ hwf.2
+    | logTo y ms =>
+      simp only [Block.structuredX, Bool.and_eq_true, beq_iff_eq] at hs
+      obtain ⟨rfl, hsr⟩ := hs
+      intro w0 w c i n s h sepr sp d0 kids sx d px hwf
+      rw [denX_logTo] at hwf ⊢
+      simp only [Bool.and_eq_true] at hwf
+      have px1 := preX_logTo H px ms hwf.1
+      simp only [execB, execS, px.var]
+      obtain ⟨p, o, nn⟩ := execX_emits H cur inH hcur y rest hsr _ _ _ _ _ _ _ _ _ _ _ _ _ px1 hwf.2
+      exact ⟨⟨p.stage, p.good, p.frame, p.grow, p.ctx, p.tick, p.nu, p.ex, p.wok⟩, o, nn⟩
+    | addSuccess z fs =>
+      cases z with
+      | none => simp [Block.structuredX] at hs
+      | some y =>
+        simp only [Block.structuredX, Bool.and_eq_true, beq_iff_eq] at hs
+        obtain ⟨rfl, hsr⟩ := hs
+        intro w0 w c i n s h sepr sp d0 kids sx d px hwf
+        rw [denX_addSucc] at hwf ⊢
+        have px1 := preX_addSucc px fs
+        simp only [execB, execS, px.var, px.inner]
+        exact execX_emits H cur inH hcur y rest hsr _ _ _ _ _ _ _ _ _ _ _ _ _ px1 hwf
+    | withHandle y body =>
+      simp only [Block.structuredX, Bool.and_eq_true, beq_iff_eq] at hs
+      obtain ⟨⟨rfl, hsb⟩, hsr⟩ := hs
+      intro w0 w c i n s h sepr sp d0 kids sx d px hwf
+      rw [denX_with] at hwf ⊢
+      have hco : (closeW env sepr sp d0 s kids (denB env cur true body d sx)).out = (denB env cur true body d sx).out := rfl
+      simp only [execB, execS, px.var]
+      cases ho : (denB env cur true body d sx).out with
+      | ok =>
+        simp only [hco, ho, Bool.and_eq_true] at hwf ⊢
+        obtain ⟨p1, o1, _⟩ := postX_with H (execB_emits H cur inH hcur body hsb) px hwf.1
+        cases hwb : withBlock env w h (fun w' => execB env cur w' body) with
+        | mk w1 ob =>
+        rw [hwb] at p1 o1
+        simp only at p1 o1
+        rw [ho] at o1; subst o1
+        exact emits_seq px.ctx0 p1 (execB_emits H cur inH hcur rest hsr) _ hwf.2
+      | stuck =>
+        simp only [hco, ho] at hwf
+        exact absurd ho (postX_with H (execB_emits H cur inH hcur body hsb) px hwf).2.2
+      | raised e =>
+        simp only [hco, ho] at hwf ⊢
+        obtain ⟨p1, o1, _⟩ := postX_with H (execB_emits H cur inH hcur body hsb) px hwf
+        cases hwb : withBlock env w h (fun w' => execB env cur w' body) with
+        | mk w1 ob =>
+        rw [hwb] at p1 o1
+        simp only at p1 o1
+        rw [ho] at o1; subst o1
+        exact ⟨p1, by simp [hco, ho], by simp [hco, ho]⟩
     | withAction task sp body => simp [Block.structuredX] at hs
     | log ms => simp [Block.structuredX] at hs
     | raise k => simp [Block.structuredX] at hs
     | tryCatch body handler => simp [Block.structuredX] at hs
     | writeTraceback => simp [Block.structuredX] at hs
-    | addSuccess z fs => simp [Block.structuredX] at hs
     | probe k => simp [Block.structuredX] at hs
     | startAs z task sp => simp [Block.structuredX] at hs
-    | withHandle z body => simp [Block.structuredX] at hs
-    | logTo z ms => simp [Block.structuredX] at hs
     | serializeAs z z' => simp [Block.structuredX] at hs
     | continueWith z sp body => simp [Block.structuredX] at hs
     | addDests l => simp [Block.structuredX] at hs
@@ -1590,6 +1794,68 @@ theorem preXT_segment {env : Env} {σ : Nat → FV → FV} {ds : List Nat} {run 
     show Wb.acts[g]? = _
     rw [post.frame g (by have := px.new; have := lt_of_get px.inner; show g < w.acts.length; omega) (by have := px.new; omega)]
     exact px.frame g hg
+
+theorem preXT_logTo {env : Env} {σ : Nat → FV → FV} {ds : List Nat} (H : EnvOK env σ ds) {w0 w : World}
+    {x h : Nat} {sp : Spec} {d0 : DS} {kids : F} {sx : Fields} {d : DS}
+    (px : PreXT env σ ds w0 w x h sp d0 kids sx d) (ms : MSpec) (hp : presentOpt ms.sers ms.fields = true) :
+    PreXT env σ ds w0 (w.logTo env h ms) x h sp d0 (kids.append (.own (.leaf d.tick ms) .nil)) sx
+      { tick := d.tick + 1, nu := d.nu, ex := d.ex } := by
+  have hlt := lt_of_get px.inner
+  have e := eff_logTo H w px.wok h _ px.inner ms hp
+  refine ⟨px.wok.ofEff e, ?_, ?_, px.new, ?_, e.ctx.trans px.ctx, px.ctx0, ?_, ?_, ?_, ?_⟩
+  · have e1 : 1 + kids.len + 1 = 2 + kids.len := by omega
+    rw [e.stage, px.stage, F.dicts_append]
+    simp [F.dicts, T.dicts, AI.act, AI.top, e1, px.tick]
+  · rw [e.acts, List.getElem?_set_self hlt, F.len_append]
+    simp [AI.act, F.len, Nat.add_assoc]
+  · intro g hg
+    rw [e.acts, List.getElem?_set_ne (by have := px.new; omega)]
+    exact px.frame g hg
+  · rw [e.vars]; exact px.var
+  · rw [e.tick, px.tick]
+  · rw [e.nu, px.nu]; rfl
+  · rw [e.ext, px.ex]
+
+theorem preXT_addSucc {env : Env} {σ : Nat → FV → FV} {ds : List Nat} {w0 w : World}
+    {x h : Nat} {sp : Spec} {d0 : DS} {kids : F} {sx : Fields} {d : DS}
+    (px : PreXT env σ ds w0 w x h sp d0 kids sx d) (fs : Fields) :
+    PreXT env σ ds w0 { w with acts := w.acts.set h { (AI.top sp d0).act (1 + kids.len) sx with
+        succ := ((AI.top sp d0).act (1 + kids.len) sx).succ.update fs } } x h sp d0 kids (sx.update fs) d := by
+  have hlt := lt_of_get px.inner
+  refine ⟨⟨px.wok.dests, px.wok.globals⟩, px.stage, ?_, px.new, ?_, px.ctx, px.ctx0, px.var, px.tick, px.nu, px.ex⟩
+  · show (w.acts.set h _)[h]? = _
+    rw [List.getElem?_set_self hlt]; rfl
+  · intro g hg
+    show (w.acts.set h _)[g]? = _
+    rw [List.getElem?_set_ne (by have := px.new; omega)]
+    exact px.frame g hg
+
+theorem postXT_with {env : Env} {σ : Nat → FV → FV} {ds : List Nat} (H : EnvOK env σ ds) {run : World → World × Outcome}
+    {den : DS → Fields → R} (hb : Emits env σ ds run den) {w0 w : World}
+    {s : Fields} {x h : Nat} {sp : Spec} {d0 : DS} {kids : F} {sx : Fields} {d : DS}
+    (px : PreXT env σ ds w0 w x h sp d0 kids sx d)
+    (hwf : (closeW env true sp d0 s kids (den d sx)).wf = true) :
+    PostT env σ ds w0 (withBlock env w h run).1 (closeW env true sp d0 s kids (den d sx)) ∧
+      (withBlock env w h run).2 = (den d sx).out ∧ (den d sx).out ≠ .stuck := by
+  have hlt := lt_of_get px.inner
+  simp only [closeW, Bool.and_eq_true] at hwf
+  obtain ⟨r1, r2, r3, r4, r5, r6, r7, r8, r9, r10⟩ := run_handle H hb w h (AI.top sp d0) (1 + kids.len) sx d px.wok px.inner
+    px.tick px.nu px.ex hwf.1 (fun ho => by
+      have := hwf.2
+      simp only [closeR, ho] at this
+      simpa [AI.top] using this)
+  refine ⟨⟨?_, by simp [closeW, closeR, F.len], ?_, ?_, r4.trans (px.ctx.trans px.ctx0.symm), ?_, r6, ?_, r8⟩, r9, r10⟩
+  · rw [r1, px.stage]
+    have e1 : 1 + kids.len + 1 = 2 + kids.len := by omega
+    have e2 : 1 + kids.len + (den d sx).f.len + 1 = kids.len + (den d sx).f.len + 2 := by omega
+    simp only [closeW, closeR, if_true, F.dicts, T.rootLevel, T.dicts, F.dicts_append, F.len_append, AI.top, e1, e2,
+      List.append_assoc, List.cons_append, List.append_nil, List.nil_append]
+  · intro g hg
+    rw [r2 g (by have := px.new; omega) (by have := px.new; omega)]
+    exact px.frame g hg
+  · have := px.new; omega
+  · rw [r5]; rfl
+  · rw [r7]; rfl
 
 theorem preXT_start {env : Env} {σ : Nat → FV → FV} {ds : List Nat} (H : EnvOK env σ ds) (cur : Option Exc) {w : World}
     {d : DS} (pre : PreT ds w d) (x : Nat) (task : Bool) (sp : Spec)
@@ -1822,16 +2088,63 @@ theorem execX_top {env : Env} {σ : Nat → FV → FV} {ds : List Nat} (H : EnvO
       have p1 := postXT_finish H px exc hwf.1
       simp only [execB, execS, px.var]
       exact emitsT_seq px.ctx0 p1 (execB_top H cur inH hcur rest hsr) _ hwf.2
+    | logTo y ms =>
+      simp only [Block.structuredX, Bool.and_eq_true, beq_iff_eq] at hs
+      obtain ⟨rfl, hsr⟩ := hs
+      intro w0 w s h sp d0 kids sx d px hwf
+      rw [denX_logTo] at hwf ⊢
+      simp only [Bool.and_eq_true] at hwf
+      have px1 := preXT_logTo H px ms hwf.1
+      simp only [execB, execS, px.var]
+      obtain ⟨p, o, nn⟩ := execX_top H cur inH hcur y rest hsr _ _ _ _ _ _ _ _ _ px1 hwf.2
+      exact ⟨⟨p.stage, p.flat, p.frame, p.grow, p.ctx, p.tick, p.nu, p.ex, p.wok⟩, o, nn⟩
+    | addSuccess z fs =>
+      cases z with
+      | none => simp [Block.structuredX] at hs
+      | some y =>
+        simp only [Block.structuredX, Bool.and_eq_true, beq_iff_eq] at hs
+        obtain ⟨rfl, hsr⟩ := hs
+        intro w0 w s h sp d0 kids sx d px hwf
+        rw [denX_addSucc] at hwf ⊢
+        have px1 := preXT_addSucc px fs
+        simp only [execB, execS, px.var, px.inner]
+        exact execX_top H cur inH hcur y rest hsr _ _ _ _ _ _ _ _ _ px1 hwf
+    | withHandle y body =>
+      simp only [Block.structuredX, Bool.and_eq_true, beq_iff_eq] at hs
+      obtain ⟨⟨rfl, hsb⟩, hsr⟩ := hs
+      intro w0 w s h sp d0 kids sx d px hwf
+      rw [denX_with] at hwf ⊢
+      have hco : (closeW env true sp d0 s kids (denB env cur true body d sx)).out = (denB env cur true body d sx).out := rfl
+      simp only [execB, execS, px.var]
+      cases ho : (denB env cur true body d sx).out with
+      | ok =>
+        simp only [hco, ho, Bool.and_eq_true] at hwf ⊢
+        obtain ⟨p1, o1, _⟩ := postXT_with H (execB_emits H cur inH hcur body hsb) px hwf.1
+        cases hwb : withBlock env w h (fun w' => execB env cur w' body) with
+        | mk w1 ob =>
+        rw [hwb] at p1 o1
+        simp only at p1 o1
+        rw [ho] at o1; subst o1
+        exact emitsT_seq px.ctx0 p1 (execB_top H cur inH hcur rest hsr) _ hwf.2
+      | stuck =>
+        simp only [hco, ho] at hwf
+        exact absurd ho (postXT_with H (execB_emits H cur inH hcur body hsb) px hwf).2.2
+      | raised e =>
+        simp only [hco, ho] at hwf ⊢
+        obtain ⟨p1, o1, _⟩ := postXT_with H (execB_emits H cur inH hcur body hsb) px hwf
+        cases hwb : withBlock env w h (fun w' => execB env cur w' body) with
+        | mk w1 ob =>
+        rw [hwb] at p1 o1
+        simp only at p1 o1
+        rw [ho] at o1; subst o1
+        exact ⟨p1, by simp [hco, ho], by simp [hco, ho]⟩
     | withAction task sp body => simp [Block.structuredX] at hs
     | log ms => simp [Block.structuredX] at hs
     | raise k => simp [Block.structuredX] at hs
     | tryCatch body handler => simp [Block.structuredX] at hs
     | writeTraceback => simp [Block.structuredX] at hs
-    | addSuccess z fs => simp [Block.structuredX] at hs
     | probe k => simp [Block.structuredX] at hs
     | startAs z task sp => simp [Block.structuredX] at hs
-    | withHandle z body => simp [Block.structuredX] at hs
-    | logTo z ms => simp [Block.structuredX] at hs
     | serializeAs z z' => simp [Block.structuredX] at hs
     | continueWith z sp body => simp [Block.structuredX] at hs
     | addDests l => simp [Block.structuredX] at hs
